@@ -66,7 +66,7 @@ func (r *rng) decRaw(maxDigits int, allowNeg bool) *big.Int {
 }
 
 func dec(raw *big.Int) math.LegacyDec { return math.LegacyNewDecFromBigIntWithPrec(raw, 18) }
-func rawOf(d math.LegacyDec) string  { return d.BigInt().String() }
+func rawOf(d math.LegacyDec) string   { return d.BigInt().String() }
 
 func guard(f func() string) (out string) {
 	defer func() {
@@ -87,6 +87,12 @@ func b2s(b bool) string {
 	return "0"
 }
 
+type setFn func(r *rng, n int, emit func(op string, exp string))
+
+var kernelSets = map[string]setFn{}
+
+func registerSet(name string, f setFn) { kernelSets[name] = f }
+
 func main() {
 	n := flag.Int("n", 2000, "cases per kernel")
 	seed := flag.Uint64("seed", 1, "seed")
@@ -96,11 +102,24 @@ func main() {
 	w := bufio.NewWriter(os.Stdout)
 	defer w.Flush()
 	emit := func(op string, exp string) { fmt.Fprintf(w, "%s\t%s\n", op, exp) }
-	sets := map[string]bool{}
 	for _, s := range strings.Split(*which, ",") {
-		sets[s] = true
+		f, ok := kernelSets[s]
+		if !ok {
+			fmt.Fprintln(os.Stderr, "unknown kernel set", s)
+			os.Exit(2)
+		}
+		f(r, *n, emit)
 	}
-	if sets["dec"] {
+}
+
+func init() {
+	registerSet("dec", setDec)
+	registerSet("cl", setCL)
+}
+
+func setDec(r *rng, np int, emit func(op string, exp string)) {
+	n := &np
+	{
 		type bin struct {
 			name string
 			f    func(a, b math.LegacyDec) math.LegacyDec
@@ -139,7 +158,11 @@ func main() {
 			}
 		}
 	}
-	if sets["cl"] {
+}
+
+func setCL(r *rng, np int, emit func(op string, exp string)) {
+	n := &np
+	{
 		for i := 0; i < *n; i++ {
 			// sqrt prices: positive, various magnitudes, often close together
 			pa := r.decRaw(30, false)
